@@ -87,6 +87,10 @@ Fixpoint conv_by (order : list string) (t : string) : cval :=
   end.
 Definition convert (t : string) : cval :=
   if smem (lower t) bool_words then VBool (String.eqb (lower t) true_word) else conv_by converter_order t.
+(* the documented conversion (docs/cli-reference.md: `config set max_retries 5` sets a number, `true`/`false` a
+   boolean): booleans, then integers, then decimals, else the text itself - the specification does not follow Gen *)
+Definition convert_doc (t : string) : cval :=
+  if smem (lower t) ["true"; "false"] then VBool (String.eqb (lower t) "true") else conv_by ["int"; "float"] t.
 
 Definition show_Z (z : Z) : string :=
   if Z.ltb z 0 then ("-" ++ show_abs z)%string else show_abs z.
@@ -219,7 +223,7 @@ Fixpoint spec_trace (exp : list (string * string)) (before : option cfg) (cs : l
     if o_rc o =? load_error_exit then file_eqb (o_file o) before :: spec_trace exp (o_file o) cr or else
     match c with
     | CSet k t =>
-      if o_rc o =? 0 then stored_ok k (convert t) (o_file o) :: spec_trace (upd (norm k) (show (convert t)) exp) (o_file o) cr or
+      if o_rc o =? 0 then stored_ok k (convert_doc t) (o_file o) :: spec_trace (upd (norm k) (show (convert_doc t)) exp) (o_file o) cr or
       else file_eqb (o_file o) before :: spec_trace exp (o_file o) cr or
     | CGet k =>
       (file_eqb (o_file o) before &&
